@@ -18,7 +18,7 @@ def run(ctx):
             progs.append(gen_build.program(rng, [sg, rng.choice('yqut')]))
     for _ in range(2500 if ctx.quick else 30000):
         progs.append(gen_build.program(rng))
-    progs = [p for p in progs if len(p[2]) < 900]
+    progs = [p for p in progs if len(p[2]) < 2600]
     outs, crashes = vlib.run_harness(ctx.build, 'build', [p[0] for p in progs])
     # the big-endian image of the same program goes through the parser (byte-order conversion)
     bouts, bcrashes = vlib.run_harness(ctx.build, 'demarshal', [p[3].hex() for p in progs])
